@@ -65,20 +65,60 @@ def _replace_spans(text, spans, log, keep_lines=True):
     return ''.join(out)
 
 
+def _split_top(argtext):
+    m = mask(argtext)
+    parts, depth, start = [], 0, 0
+    for i, ch in enumerate(m):
+        if ch in '([{':
+            depth += 1
+        elif ch in ')]}':
+            depth -= 1
+        elif ch == ',' and depth == 0:
+            parts.append(argtext[start:i])
+            start = i + 1
+    parts.append(argtext[start:])
+    return [p.strip() for p in parts if p.strip()]
+
+
+def _payload_args(argtext):
+    """the expressions a format-style macro evaluates besides its format string (inline `{name}` captures are plain variables)"""
+    parts = _split_top(argtext)
+    if not parts:
+        return []
+    rest = parts[1:] if re.match(r'^(r#*)?"', parts[0]) else parts
+    out = []
+    for p in rest:
+        mm = re.match(r'^[A-Za-z_][A-Za-z0-9_]*\s*=(?!=)\s*(.*)$', p, re.S)
+        out.append(mm.group(1) if mm else p)
+    # a bare variable / literal cannot panic when evaluated: not worth keeping
+    return [e for e in out if not re.fullmatch(r'[A-Za-z_][A-Za-z0-9_]*|[0-9_]+', e)]
+
+
 def rule_R1(text, args, log):
-    """anyhow error plumbing: anyhow!(..) -> Error ; bail!(..) -> return Err(Error) ;
-    .context(..)/.with_context(..) dropped ; `Err(e) => return Err(e.into())` untouched.
-    Drops the error payload, keeps Ok/Err-ness."""
+    """anyhow error plumbing: anyhow!(FMT, ARGS..) -> Error ; bail!(FMT, ARGS..) -> return Err(Error) ;
+    .context(..)/.with_context(..) dropped.  Drops the error *message*, keeps Ok/Err-ness - and keeps the
+    EVALUATION of the message arguments (`payload_eval(&(arg));`), because an argument such as `&raw[a..b]`
+    can panic.  A lazily evaluated context closure with computed arguments is refused (exit 2)."""
     spans = []
     for (a, b, name) in _macro_calls(text, ['anyhow', 'bail']):
         base = name.split('::')[-1]
-        spans.append((a, b, 'Error' if base == 'anyhow' else 'return Err(Error)'))
+        ob = text.index('(', a) if '(' in text[a:b] else a
+        inner = text[text.index('!', a) + 1:b].strip()[1:-1]
+        evals = ''.join(' payload_eval(&(%s));' % ' '.join(e.split()) for e in _payload_args(inner))
+        if base == 'anyhow':
+            spans.append((a, b, ('{%s Error }' % evals) if evals else 'Error'))
+        else:
+            spans.append((a, b, ('{%s return Err(Error) }' % evals) if evals else 'return Err(Error)'))
     text = _replace_spans(text, spans, log)
     m = mask(text)
     spans = []
     for mm in re.finditer(r'\s*\.\s*(with_context|context)\s*\(', m):
         ob = mm.end() - 1
         cb = match_close(m, ob)
+        inner = text[ob + 1:cb]
+        fm = re.search(r'format!\s*\((.*)\)\s*$', inner.strip(), re.S)
+        if fm and _payload_args(fm.group(1)):
+            raise ExtractError('unsupported construct: error-context closure with computed arguments: %s' % ' '.join(inner.split())[:120])
         spans.append((mm.start(), cb + 1, ''))
     text = _replace_spans(text, spans, log)
     return text
